@@ -70,6 +70,9 @@ def run(tier):
     nf, cf = fc.judge(chk, wd, "c06", "C06", ("wasm32", "ilp64", "lp16"))
     total += nf
     runs_distinct |= cf
+    # the same refusals in the library's DEFAULT failure configuration (no exceptions, no custom handler): the process ends
+    import abortcommon
+    abortcommon.judge(chk, wd, "C06")
     chk.count(evaluations=total, distinct=len(runs_distinct), traces=len(done))
     chk.cov["exhaustive"] = True
     chk.cov["exhaustive_scope"] = ("every source value for sources <= 16 bits (all 15x15 ordered pairs)" +
